@@ -219,12 +219,14 @@ Lemma copy_independent (val : Type) (mac : list N -> list N -> list N)
   | RSet true _ _ _ | RDel true _ => fst st' = fst st            (* on the copy: the original keeps its cookies *)
   | RSet false _ _ _ | RDel false _ => snd st' = snd st          (* on the original: the copy keeps its cookies *)
   | RCopy => fst st' = fst st /\ exists c, snd st' = Some c /\ Permutation c (fst st)
+  | RApply _ => snd st' = snd st                                 (* applied to the original: the copy keeps its cookies *)
   end.
 Proof.
-  destruct st as [r c]. destruct o as [oc name v secret|oc name|]; simpl.
+  destruct st as [r c]. destruct o as [oc name v secret|oc name| |cookies]; simpl.
   - destruct oc; [destruct c as [cj|]; [|reflexivity]|];
       destruct (mjar_set val mac dumps _ name v secret false); reflexivity.
   - destruct oc; [destruct c as [cj|]; [|reflexivity]|];
       destruct (mjar_delete val mac dumps _ name); reflexivity.
   - split; [reflexivity|]. exists (mjar_copy r). split; [reflexivity | apply mjar_copy_perm].
+  - destruct (mjar_set_all val mac dumps [] cookies) as [[|e0 hj]|e]; reflexivity.
 Qed.
